@@ -115,6 +115,7 @@ func (s *Solver) start() {
 		}
 	}
 	s.send("(declare-sort Val 0)")
+	s.send(valPrelude)
 }
 
 func (s *Solver) Close() {
@@ -149,6 +150,10 @@ func (s *Solver) sync(terms []*Term) {
 	for s.nufs < len(s.ts.ufList) {
 		name := s.ts.ufList[s.nufs]
 		sig := s.ts.ufs[name]
+		if name == "isNull" || name == "truth" || name == "VNULL" || name == "VTRUE" || name == "VFALSE" {
+			s.nufs++
+			continue
+		}
 		args := strings.TrimSpace(strings.Repeat("Val ", sig.nargs))
 		s.send(fmt.Sprintf("(declare-fun %s (%s) %s)", name, args, sortName(sig.ret)))
 		s.nufs++
